@@ -528,6 +528,30 @@ func (g *gen) stmt(indent, depth int) ([]string, bool) {
 			g.note("define")
 			return []string{in + v.name + " := " + e}, false
 		case 3:
+			if g.nlocals < 8 && g.r.Intn(3) == 0 {
+				// two variadic calls of the same arity, the first one in a branch that may be skipped
+				g.note("sprintf-pair")
+				v := g.newLocal(gStr, false)
+				v.used = true
+				var a1, a2 string
+				g.pend++
+				switch g.r.Intn(3) {
+				case 0:
+					a1 = `fmt.Sprintf("%d", ` + g.expr(gInt, 1) + ")"
+					a2 = `fmt.Sprintf("<%s>", ` + g.expr(gStr, 1) + ")"
+				case 1:
+					a1 = `fmt.Sprintf("%s:%d", ` + g.expr(gStr, 1) + ", " + g.expr(gInt, 1) + ")"
+					a2 = `fmt.Sprintf("%d/%v", ` + g.expr(gInt, 1) + ", " + g.expr(gBool, 1) + ")"
+				default:
+					a1 = `fmt.Sprintf("%v%v%v", ` + g.expr(gInt, 1) + ", " + g.expr(gStr, 1) + ", " + g.expr(gInt, 1) + ")"
+					a2 = `fmt.Sprintf("%s-%d-%s", ` + g.expr(gStr, 1) + ", " + g.expr(gInt, 1) + ", " + g.expr(gStr, 1) + ")"
+				}
+				g.pend--
+				cond := g.expr(gBool, 2)
+				return []string{in + v.name + " := " + g.strLit(),
+					in + "if " + cond + " {", in + "\t" + v.name + " = " + a1, in + "}",
+					in + v.name + " = " + v.name + " + " + a2}, false
+			}
 			if g.nlocals >= 7 {
 				continue
 			}
